@@ -446,7 +446,9 @@ pub fn register_upvalue<T>(
     let c = resolve_closure(closure)?;
 
     if is_local {
-        let location = &vm.runtime_data.value_stack.as_slice()[index as usize];
+        // locals are addressed relative to the current call frame
+        let offset = stack_offset(vm);
+        let location = &vm.runtime_data.value_stack.as_slice()[offset + index as usize];
         let location = (location as *const Value).cast_mut();
         unsafe {
             // look for an existing upvalue to the same location
@@ -468,7 +470,12 @@ pub fn register_upvalue<T>(
                 // if there is an existing upvalue to this location reuse that
                 c.upvalues.push(NonNull::new_unchecked(upvalue));
             } else {
-                let upvalue = vm.init_upvalue(location)?;
+                let next_upvalue = upvalue;
+                let mut upvalue = vm.init_upvalue(location)?;
+                // the rest of the list (lower stack locations) follows the new upvalue
+                if let Some(u) = upvalue.as_upvalue_mut() {
+                    u.next = next_upvalue;
+                }
 
                 // keep the open upvalues sorted
                 match prev_upvalue.as_mut().and_then(|u| u.as_upvalue_mut()) {
